@@ -23,8 +23,11 @@ package ssh
 //
 // Symbolic allocation sizes are enumerated by the engine; per stream length n the allocation
 // limit is n+2 (every size that can be satisfied from the stream plus truncated ones); larger
-// declared lengths up to 500 are covered by the *Big harnesses on an 8..24-byte stream, and the
-// exact maxPacket boundary by Verif_C26_MaxPacket.
+// declared lengths up to 250 (chacha 400; 500/560 in the unregistered *Big functions) are
+// covered on an 8-byte stream (Verif_C26_TBig), and the exact maxPacket boundary by
+// Verif_C26_MaxPacket (run as a case of TBig). Registered: the Verif_C26_T* groups (thorough)
+// and Verif_C26_Quick* (quick); the ungrouped functions have larger bounds and are kept for
+// debugging. gcm: the last IV byte is assumed != 0xff here (carries are C25's subject).
 
 import (
 	"bufio"
